@@ -27,6 +27,8 @@ pub(super) fn parse_dict_parts<'a, 'b: 'a, R: Read>(
     let mut expect_comma = false;
 
     while !parser.lexer.is_eof() {
+        #[cfg(feature = "verif-hooks")]
+        crate::haystack::verif_hooks::tick(crate::haystack::verif_hooks::SITE_LOOP);
         if expect_comma && parser.lexer.is_char(b',') {
             parser.lexer.read()?;
             expect_comma = false;
